@@ -422,6 +422,13 @@ def lower_crate(crate):
 _MODELS = {}
 
 
+def model_fn(crate, path):
+    for (cid, kinds), fn in _MODELS.items():
+        if cid == id(crate) and fn.path == path:
+            return fn
+    return None
+
+
 def next_model(crate, kinds):
     """model of  <Adaptors.. as Iterator>::next(&mut it)  for the closure adaptors `kinds` (innermost first)"""
     from . import mir
